@@ -58,7 +58,7 @@ Lemma pow2_pow n : pow2 n = 2 ^ n.
 Proof. unfold pow2. rewrite N.shiftl_1_l. reflexivity. Qed.
 
 Definition params_ok (p : fparams) (pledged dictID : N) : Prop :=
-  10 <= fp_windowLog p <= 31 /\ dictID < 2 ^ 32 /\ pledged < 2 ^ 64.
+  10 <= fp_windowLog p <= 31 /\ dictID < 2 ^ 32 /\ (fp_contentSize p = true -> pledged < 2 ^ 64).
 
 Lemma enc_fheader_len p pledged dictID :
   lenN (enc_fheader p pledged dictID) =
@@ -128,11 +128,11 @@ Proof.
                (if fcssz =? 0 then None else Some (if fcssz =? 2 then fv + 256 else fv)) = (if fp_contentSize p then Some pledged else None) /\
                (single = true -> fp_contentSize p = true)).
   { unfold fcssz, fbytes, fcs, fh_fcs_code, single, fh_single_segment.
-    destruct (fp_contentSize p); cbn [andb].
+    destruct (fp_contentSize p) eqn:Ecs; cbn [andb].
     2:{ exists 0. cbn. repeat split; auto; discriminate. }
     destruct (N.leb_spec 256 pledged) as [H1|H1]; destruct (N.leb_spec 65792 pledged) as [H2|H2];
       destruct (N.leb_spec 4294967295 pledged) as [H3|H3]; try lia; cbn [b2n N.add N.eqb Pos.eqb Pos.add Pos.succ].
-    - exists pledged. change (N.to_nat 8) with 8%nat. rewrite read_le_write_le by exact Hp. repeat split; auto.
+    - exists pledged. change (N.to_nat 8) with 8%nat. rewrite read_le_write_le by exact (Hp eq_refl). repeat split; auto.
     - exists pledged. change (N.to_nat 4) with 4%nat. rewrite read_le_write_le by (change (2 ^ (8 * N.of_nat 4)) with 4294967296; lia). repeat split; auto.
     - exists (pledged - 256). change (N.to_nat 2) with 2%nat. rewrite read_le_write_le by (change (2 ^ (8 * N.of_nat 2)) with 65536; lia).
       cbn [N.eqb Pos.eqb]. split; [reflexivity|]. split; [|auto]. f_equal. lia.
